@@ -3,7 +3,8 @@
 its meta.json ("props"), expects exit 1 + a VIOLATION line from at least one of them, and restores /repo.
 usage: selftest.py [name-substring ...]      (never run concurrently with other checks: it edits /repo's working tree)"""
 import json, os, subprocess, sys, glob, time
-ROOT = "/verif"
+ROOT = os.path.dirname(os.path.dirname(os.path.abspath(__file__)))
+REPO = os.environ.get("VERIF_REPO", "/repo")
 res = []
 names = sys.argv[1:]
 # evidence files describe the unchanged tree: keep them as they are (the runs below overwrite them)
@@ -21,8 +22,8 @@ for d in sorted(glob.glob(ROOT + "/seeded/*/")):
     props = meta.get("props") or []
     if not props:
         print(name, "no props listed, skipped"); continue
-    assert subprocess.run(["git", "-C", "/repo", "status", "--porcelain"], capture_output=True, text=True).stdout.strip() == "", "/repo not clean"
-    r = subprocess.run(["git", "-C", "/repo", "apply", d + "patch.diff"], capture_output=True, text=True)
+    assert subprocess.run(["git", "-C", REPO, "status", "--porcelain"], capture_output=True, text=True).stdout.strip() == "", "/repo not clean"
+    r = subprocess.run(["git", "-C", REPO, "apply", d + "patch.diff"], capture_output=True, text=True)
     if r.returncode != 0:
         print(name, "PATCH DOES NOT APPLY", r.stderr[:200]); res.append((name, "no-apply")); continue
     caught = []
@@ -33,8 +34,8 @@ for d in sorted(glob.glob(ROOT + "/seeded/*/")):
             v = [l for l in q.stdout.splitlines() if l.startswith("VIOLATION")]
             caught.append((p, q.returncode, len(v), round(time.time() - t0)))
     finally:
-        subprocess.run(["git", "-C", "/repo", "checkout", "--", "."])
-        subprocess.run(["git", "-C", "/repo", "clean", "-fdq"])
+        subprocess.run(["git", "-C", REPO, "checkout", "--", "."])
+        subprocess.run(["git", "-C", REPO, "clean", "-fdq"])
     ok = any(rc == 1 and nv > 0 for _, rc, nv, _ in caught)
     print(name, "CAUGHT" if ok else "MISSED", caught, flush=True)
     try:
